@@ -148,6 +148,8 @@ type FuncSpec struct {
 	NilOut  bool    `json:"nilout,omitempty"` // pointer-struct result returned as nil
 	// TypedNil: a failing function returns a non-nil error interface holding a nil *myErr
 	TypedNil bool `json:"typednil,omitempty"`
+	// NilIface: interface-typed outputs are returned as nil interface values
+	NilIface bool `json:"niliface,omitempty"`
 	// UnsatErr: a failing function returns an error wrapping an *ErrArgumentUnsatisfied
 	// of its own (as a converter that delegates to another Func.Call would)
 	UnsatErr bool `json:"unsaterr,omitempty"`
@@ -183,6 +185,9 @@ func (f FuncSpec) String() string {
 	}
 	if f.UnsatErr {
 		s += "!unsaterr"
+	}
+	if f.NilIface {
+		s += "!niliface"
 	}
 	return s
 }
